@@ -69,6 +69,8 @@ def plan(tier, seed):
         shards.append(("catalogue", (s, s)))
     for shp in rect:
         shards.append(("catalogue", shp))
+    for c in range(8):
+        shards.append(("sched", c, 8, tier))
     # visit order depends on the seed (results do not)
     k = seed % max(1, len(shards))
     return shards[k:] + shards[:k]
@@ -348,7 +350,44 @@ def _run_catalogue(desc):
     return sh
 
 
+def _run_sched(desc):
+    """the dense kernel relabels in an OpenMP loop: all schedules (T = 2, 3; preemption bound 2) of the tsan-instrumented
+    kernel on the vrt runtime for every binary 3x3 image (thorough: 3x4) must give the single-thread labels"""
+    _, c, nch, tier = desc
+    from vt.vrt import VRT, check_schedule_independence
+    sh = Shard()
+    V = VRT()
+    shp = (3, 3) if tier == "quick" else (3, 4)
+    n = shp[0] * shp[1]
+    for x in range(c, 1 << n, nch):
+        mask = _bits(x, n, shp)
+        data = np.ascontiguousarray(np.where(mask, 1.0, 0.0).astype(np.float32))
+        for conn8 in (1, 0):
+            labels = np.full(shp, 7777, np.int32)
+            ref, res, bad = check_schedule_independence(V, "connectedpixels", [data, labels, 0, conn8, shp[0], shp[1]], [0.5], (0,), [labels],
+                                                        threads=(2, 3), bound=2)
+            case = {"kind": "sched", "shape": list(shp), "mask": mask.astype(int).tolist(), "conn8": conn8}
+            want, n_want = O.flood_components(mask, bool(conn8))
+            lab = np.frombuffer(ref[1], np.int32).reshape(shp)
+            if ref[0] != n_want or not np.array_equal(O.canon_labels(lab), O.canon_labels(want)):
+                sh.violation("connectedpixels[vrt build]:partition", case, {"labels": lab})
+            for T, sched in bad:
+                sh.violation("connectedpixels:schedule-dependent:T=%d" % T, dict(case, schedule=sched), {})
+            for r in res:
+                sh.states += r["nodes"]
+                sh.transitions += r["nodes"] - 1 + r["executions"]
+                sh.count("schedule_executions", r["total_executions"])
+                sh.count("conflict_words", r["filter_size"])
+            sh.evaluations += 1
+            if n_want >= 2:
+                sh.nontrivial += 1
+    sh.sample({"kind": "sched", "shape": list(shp), "threads": [2, 3], "bound": 2}, limit=1)
+    return sh
+
+
 def run_shard(desc):
+    if desc[0] == "sched":
+        return _run_sched(desc)
     if desc[0] == "dense":
         return _run_dense(desc)
     if desc[0] == "sparse":
